@@ -71,17 +71,64 @@ def drawCalls (s : Style) (r : Rect) : List Call :=
      | none => []
      | some sc => strokeCalls s r sc)
 
-/-- One step of `StyledPixelsIterator::next`'s loop body for a point of the inner iterator:
-the colour choice (`stroke_color`, not the effective one) and the `if let Some(color)`. -/
+/-! ### `StyledPixelsIterator` — the iterator as a state machine -/
+
+structure PixelsIt where
+  iter : Rect.PointsIt          -- iter: Points
+  strokeColor : Option Color    -- stroke_color (not the effective one)
+  fillArea : Rect               -- fill_area
+  fillColor : Option Color      -- fill_color
+  deriving Repr
+
+/-- `StyledPixelsIterator::new`. -/
+def pixelsIt (s : Style) (r : Rect) : PixelsIt :=
+  { iter := if !s.isTransparent then (strokeArea s r).pointsIt else Rect.PointsIt.empty
+    strokeColor := s.stroke
+    fillArea := fillArea s r
+    fillColor := s.fill }
+
+/-- The colour choice of the loop body: fill colour inside the fill area, else the stroke colour. -/
+def PixelsIt.colorAt (it : PixelsIt) (p : Pt) : Option Color :=
+  if it.fillArea.contains p then it.fillColor else it.strokeColor
+
+/-- One call of `Iterator::next`: `for point in &mut self.iter { .. if let Some(color) = color
+{ return Some(Pixel(point, color)) } } None`. The loop runs at most once per remaining point of
+the inner iterator; `fuel` is that bound. -/
+def PixelsIt.nextFuel : Nat → PixelsIt → Option ((Pt × Color) × PixelsIt)
+  | 0, _ => none
+  | fuel + 1, it =>
+    match it.iter.next with
+    | none => none
+    | some (p, iter') =>
+      match it.colorAt p with
+      | some c => some ((p, c), { it with iter := iter' })
+      | none => nextFuel fuel { it with iter := iter' }
+
+def PixelsIt.next (it : PixelsIt) : Option ((Pt × Color) × PixelsIt) :=
+  it.nextFuel it.iter.budget
+
+def PixelsIt.toListFuel : Nat → PixelsIt → Writes
+  | 0, _ => []
+  | fuel + 1, it =>
+    match it.next with
+    | some (w, it') => w :: toListFuel fuel it'
+    | none => []
+
+/-- `styled.pixels()` as a `for` loop sees it. -/
+def pixelsList (s : Style) (r : Rect) : Writes :=
+  let it := pixelsIt s r
+  it.toListFuel it.iter.budget
+
+/-- Closed form of one pixel (specification): the colour choice and the `if let Some(color)`. -/
 def pixelOf (s : Style) (r : Rect) (p : Pt) : Option (Pt × Color) :=
   let color := if (fillArea s r).contains p then s.fill else s.stroke
   match color with
   | some c => some (p, c)
   | none => none
 
-/-- `styled.pixels()` as a `for` loop sees it: the points of the stroke area (none when the style
-is transparent), each mapped through the colour choice, colourless points skipped. -/
-def pixelsList (s : Style) (r : Rect) : Writes :=
+/-- Closed form of `pixelsList` (specification): the points of the stroke area (none when the
+style is transparent), each mapped through the colour choice, colourless points skipped. -/
+def pixelsSpec (s : Style) (r : Rect) : Writes :=
   (if !s.isTransparent then (strokeArea s r).points else []).filterMap (pixelOf s r)
 
 end StyledRect
